@@ -73,6 +73,9 @@ type Replay struct {
 	W     int        `json:"w,omitempty"`      // race: events the writer appends when deleteJournal asks for the lock
 	// trunc: the real statement is executed a second time on what the first left (a repeated request)
 	Repeat  bool   `json:"repeat,omitempty"`
+	// trunc: the partitions are written, the server is stopped, the snapshot of the time index (cindex/cindex.dat) is taken away and the
+	// server started again - the start after a crash: the time range of every chunk is what lightFill reads from its first and last record
+	Blind bool `json:"blind,omitempty"`
 	TsClass string `json:"tsclass,omitempty"` // informational: the part of the time axis the events are on
 }
 
@@ -110,6 +113,8 @@ type runner struct {
 	tdec *tsDecor
 	// the server fell over (an observed panic left one of its locks locked): the worker goes on with a fresh one
 	broken bool
+	// the rebuilder of this server is held on purpose (blind cases): do not wait for it
+	noQuiesce bool
 }
 
 func atomicNext() int64 { return atomic.AddInt64(&caseCounter, 1) }
@@ -392,10 +397,15 @@ type outcome struct {
 // runCase executes one case on the server (one case at a time per server)
 func (r *runner) runCase(rp *Replay) (*outcome, error) {
 	vc := int(atomic.AddInt64(&caseCounter, 1))
-	parts := rp.Parts
-	if err := r.build(vc, parts); err != nil {
+	if err := r.build(vc, rp.Parts); err != nil {
 		return nil, err
 	}
+	return r.runBuilt(rp, vc)
+}
+
+// runBuilt: the case on partitions that exist already (built by this or by an earlier incarnation of the server)
+func (r *runner) runBuilt(rp *Replay, vc int) (*outcome, error) {
+	parts := rp.Parts
 	o := &outcome{}
 	for i, ps := range parts {
 		po, err := r.observe(vc, i, ps)
@@ -652,6 +662,9 @@ func main() {
 			for _, rp := range stopStartCorpus() {
 				jobs = append(jobs, job{rp, "stopstart"})
 			}
+			for _, rp := range blindCorpus() {
+				jobs = append(jobs, job{rp, "corpus"})
+			}
 			root := seededRng(c.Seed)
 			n := c.N(300)
 			for i := 0; i < n; i++ {
@@ -665,6 +678,10 @@ func main() {
 			for i := 0; i < c.N(16); i++ {
 				r := root.Fork()
 				jobs = append(jobs, job{genRebuild(r), "rebuild"})
+			}
+			for i := 0; i < c.N(12); i++ {
+				r := root.Fork()
+				jobs = append(jobs, job{genBlind(r), "blind"})
 			}
 		}
 		nw := 8
@@ -748,7 +765,13 @@ func mkCases(r *runner, j job) ([]Case, error) {
 	if rp.Kind == "stopstart" {
 		return runStopStart(rp, j.stream) // on servers of its own
 	}
-	o, err := r.runCase(&rp)
+	var o *outcome
+	var err error
+	if rp.Blind {
+		o, err = runBlind(&rp)
+	} else {
+		o, err = r.runCase(&rp)
+	}
 	if err != nil {
 		return nil, err
 	}
@@ -796,6 +819,9 @@ func mkCases(r *runner, j job) ([]Case, error) {
 		tags = append(tags, "bad-source:"+o.p.BadSrc)
 	}
 	tags = append(tags, "source-form:"+o.p.SrcForm)
+	if rp.Blind {
+		tags = append(tags, "start-without-index-snapshot")
+	}
 	if rp.TsClass != "" {
 		tags = append(tags, "timestamps:"+rp.TsClass)
 	}
@@ -836,6 +862,15 @@ func mkCases(r *runner, j job) ([]Case, error) {
 		Key:        "real|" + sig,
 	}
 	cases := []Case{dry, real}
+	if rp.Blind {
+		// the range the restarted server reports for every chunk is the one the model's lightFill computes from its records
+		for i := range rp.Parts {
+			for k, c := range o.before[i].Chunks {
+				cases = append(cases, Case{Coq: GApp("KLightHull", GListZ(c.Ts), GZ(c.MinTs), GZ(c.MaxTs)), Replay: rp, Stream: j.stream + "-hull",
+					NonTrivial: len(c.Ts) > 1 && c.Ts[0] > c.Ts[len(c.Ts)-1], Key: fmt.Sprintf("hull|%s|%d|%d", sig, i, k)})
+			}
+		}
+	}
 	if o.repeated {
 		// the repeated request sees what the first one left: the partitions that still exist, with the same holds
 		var it []string
